@@ -18,10 +18,12 @@ import (
 	"fmt"
 	"net/netip"
 	"slices"
+	"strings"
 	"time"
 
 	"github.com/mdlayher/corerad/internal/plugin"
 	"github.com/mdlayher/ndp"
+	"golang.org/x/net/idna"
 )
 
 // The Well-Known Prefix for IPv4 to IPv6 translation, as specified in RFC
@@ -172,22 +174,34 @@ func parseDNSSL(d rawDNSSL, maxInterval time.Duration) (*plugin.DNSSL, error) {
 		return nil, errors.New("must specify one or more DNS search domain names")
 	}
 
-	// Make sure all domain names are unique.
+	// Make sure all domain names are unique. Names are kept in the form they
+	// have after a round trip over the wire, without a trailing dot and with
+	// internationalized labels in Unicode, so that an advertisement from a
+	// router with the same configuration compares equal to our own. A trailing
+	// dot would also end the list of names early when the option is decoded.
 	seen := make(map[string]struct{})
+	names := make([]string, 0, len(d.DomainNames))
 	for _, d := range d.DomainNames {
-		if d == "" {
+		name, err := idna.ToUnicode(strings.TrimSuffix(d, "."))
+		if err != nil {
+			return nil, fmt.Errorf("invalid domain name %q: %v", d, err)
+		}
+
+		if name == "" {
 			return nil, errors.New("domain names must not be empty")
 		}
 
-		if _, ok := seen[d]; ok {
+		if _, ok := seen[name]; ok {
 			return nil, fmt.Errorf("domain name %q cannot be specified multiple times", d)
 		}
-		seen[d] = struct{}{}
+		seen[name] = struct{}{}
+
+		names = append(names, name)
 	}
 
 	return &plugin.DNSSL{
 		Lifetime:    lifetime,
-		DomainNames: d.DomainNames,
+		DomainNames: names,
 	}, nil
 }
 
